@@ -72,16 +72,18 @@ DupDefects(h) ==
                             /\ h[i] # ":unknown" /\ PName(h[i]) = PName(h[j]), "dup_pseudo")
 
 Common(h) == FieldDefects(h) \cup OrderDefects(h) \cup DupDefects(h)
+CommonNames == {"upper", "badname", "badvalue", "connspec", "te_other", "unknown_pseudo", "bad_status",
+                "pseudo_after_regular", "dup_pseudo"}
 
 \* numeric content-length summary of a list: -1 absent, -2 unparsable, -3 conflicting values, n >= 0
 ClDefects(cl) == If(cl = -2, "cl_invalid") \cup If(cl = -3, "cl_conflict")
 
-\* 8.3.1, 8.5, RFC 8441 4.  ecp: the receiving server has enabled the extended CONNECT protocol
-RequestDefects(h, ecp, cl) ==
+\* 8.3.1, 8.5, RFC 8441 4.  ecp: the receiving server has enabled the extended CONNECT protocol.
+\* (The *Rules operators are the kind-specific rules; *Defects adds the rules common to all kinds.)
+RequestRules(h, ecp) ==
     LET conn  == FirstIn(h, MethodCls) = ":method=CONNECT"
         proto == Has(h, {":protocol"})
-    IN   Common(h) \cup ClDefects(cl)
-    \cup If(Has(h, StatusCls), "wrong_direction")
+    IN   If(Has(h, StatusCls), "wrong_direction")
     \cup If(~Has(h, MethodCls), "missing_method")
     \cup If(proto /\ ~ecp, "protocol_not_enabled")
     \cup If(proto /\ ~conn, "protocol_non_connect")
@@ -91,31 +93,24 @@ RequestDefects(h, ecp, cl) ==
           ELSE      If(~Has(h, {":scheme"}), "missing_scheme")
                \cup If(~Has(h, PathCls), "missing_path")
                \cup If(Has(h, {":path=empty"}), "empty_path"))
+RequestDefects(h, ecp, cl) == Common(h) \cup ClDefects(cl) \cup RequestRules(h, ecp)
 
 \* 8.4.1: a promised request is a complete valid request with a safe method and no :protocol
 SafeMethodCls == {":method=GET", ":method=HEAD", ":method=OPTIONS"}
-PushDefects(h, cl) ==
-         RequestDefects(h, FALSE, cl)
-    \cup If(Has(h, MethodCls) /\ FirstIn(h, MethodCls) \notin SafeMethodCls, "push_unsafe")
+PushRules(h) ==
+    RequestRules(h, FALSE) \cup If(Has(h, MethodCls) /\ FirstIn(h, MethodCls) \notin SafeMethodCls, "push_unsafe")
+PushDefects(h, cl) == Common(h) \cup ClDefects(cl) \cup PushRules(h)
 
 \* 8.3.2; exempt: the message is defined as having no content (8.1.1), its content-length is not judged
-ResponseDefects(h, cl, exempt) ==
-         Common(h) \cup (IF exempt THEN {} ELSE ClDefects(cl))
-    \cup If(Has(h, ReqPseudo), "wrong_direction")
-    \cup If(~Has(h, StatusCls), "missing_status")
+ResponseRules(h) == If(Has(h, ReqPseudo), "wrong_direction") \cup If(~Has(h, StatusCls), "missing_status")
+ResponseDefects(h, cl, exempt) == Common(h) \cup (IF exempt THEN {} ELSE ClDefects(cl)) \cup ResponseRules(h)
 
 \* 8.1: an interim response carries a 1xx status and never END_STREAM
-InterimDefects(h, es) ==
-         Common(h)
-    \cup If(Has(h, ReqPseudo), "wrong_direction")
-    \cup If(~Has(h, StatusCls), "missing_status")
-    \cup If(es, "interim_eos")
+InterimDefects(h, es) == Common(h) \cup ResponseRules(h) \cup If(es, "interim_eos")
 
 \* 8.1: trailers carry no pseudo-header field and end the stream
-TrailerDefects(h, es) ==
-         FieldDefects(h)
-    \cup If(Has(h, PseudoCls), "pseudo_in_trailers")
-    \cup If(~es, "trailers_no_eos")
+TrailerRules(h, es) == If(Has(h, PseudoCls), "pseudo_in_trailers") \cup If(~es, "trailers_no_eos")
+TrailerDefects(h, es) == FieldDefects(h) \cup TrailerRules(h, es)
 
 \* x = [ecp, cl, exempt, es]
 Defects(kind, h, x) ==
@@ -159,17 +154,44 @@ ClRun(a, frames) ==
     IN F[Len(frames)]
 
 \* ==== Part 3: monitor =======================================================
+(***************************************************************************)
+(* Rules (ids are what the engine reports):                                *)
+(*  C13.no_deliver_malformed  a header block handed to E that is malformed *)
+(*        for its position (or follows a malformed one on its stream) is   *)
+(*        never returned by accept / poll_response / poll_info / poll_push *)
+(*        / poll_trailers.                                                 *)
+(*  C13.fail_malformed  by the next quiescence E has failed that stream:   *)
+(*        RST_STREAM on it or GOAWAY with an error code on the wire (when  *)
+(*        the cause carried END_STREAM and E is the client or had ended    *)
+(*        its own side already, an error returned to the application on    *)
+(*        that stream is enough - nobody is left to tell).                 *)
+(*  C13.cl_no_clean_end  once the DATA handed to E disagrees with the      *)
+(*        declared content-length (beyond it, or END_STREAM short of it),  *)
+(*        poll_data / poll_trailers never report a clean end.              *)
+(*  C13.cl_fail  ... and by the next quiescence the stream is failed.      *)
+(*  C13.emit_wellformed  every header block E writes is valid for its      *)
+(*        position.   C13.emit_cl_match  the DATA E writes agrees with the *)
+(*        content-length E declared.                                       *)
+(* Defects of the END_STREAM flag rather than of the header section        *)
+(* (Framing below) are outside the property's statement: they are counted  *)
+(* as notes, never reported as violations.                                 *)
+(***************************************************************************)
+Framing == {"interim_eos", "trailers_no_eos"}
 
 DefS ==
-    [ph     |-> "head",   \* receive side: head | body | done | bad
-     blocks |-> <<>>,     \* header blocks handed to E on this stream: [kind, ok, why, l]
+    [ph     |-> "head",   \* receive side: head (no final head yet) | body | done
+     bad    |-> FALSE,    \* a malformed block / a content-length disagreement was seen on the receive side
+     blocks |-> <<>>,     \* header blocks handed to E on this stream: [kind, ok, why, l, live]
      dl     |-> [request |-> 0, response |-> 0, interim |-> 0, push |-> 0, trailers |-> 0],
      cla    |-> ClInit(-1),
      owe    |-> 0,        \* trace position of the cause that obliges E to fail the stream (0: nothing owed)
      oweRule |-> "",
+     oweEs  |-> FALSE,    \* the cause carried END_STREAM
+     oweAlt |-> 0,        \* a pushed request: failing the stream that carried the PUSH_PROMISE counts as well
      failed |-> FALSE,    \* RST_STREAM written by E or handed to E
      reqm   |-> "",       \* method class of the request this stream carries / answers
-     oph    |-> "head",   \* send side: head | body | done
+     oph    |-> "head",   \* send side: head | body | done | skip (an undecodable block: judge nothing more)
+     oint   |-> 0,        \* interim responses written by E
      ocla   |-> ClInit(-1)]
 
 Init(role, cfg) ==
@@ -177,7 +199,9 @@ Init(role, cfg) ==
      ecpLocal |-> FALSE,   \* E advertised SETTINGS_ENABLE_CONNECT_PROTOCOL = 1
      ecpPeer  |-> FALSE,   \* E was handed the peer's SETTINGS_ENABLE_CONNECT_PROTOCOL = 1
      connFailed |-> FALSE, \* E wrote GOAWAY with an error code
+     goLast  |-> -1,       \* last-stream-id of the GOAWAY E wrote (-1: none): E ignores newer peer streams
      tainted |-> FALSE,    \* transport fault injected: no obligation can be demanded any more
+     promIn |-> 0, promOut |-> 0,   \* promised id of the PUSH_PROMISE block being handed to / written by E
      st |-> EmptyMap,
      v |-> <<>>, hits |-> EmptyMap, notes |-> EmptyMap]
 
@@ -194,31 +218,33 @@ SetToSeq(T) ==
     LET F[U \in SUBSET T] == IF U = {} THEN <<>> ELSE LET t == CHOOSE t \in U : TRUE IN <<t>> \o F[U \ {t}]
     IN F[T]
 
-Live(m, x) == ~x.failed /\ ~m.connFailed /\ ~m.tainted
+\* E can still be expected to react to what it is handed on stream s
+Live(m, s, x) == ~x.failed /\ ~m.connFailed /\ ~m.tainted /\ (m.goLast < 0 \/ s <= m.goLast \/ LocalInit(m.role, s))
 
 \* ---- a header block was handed to E ------------------------------------------
-\* register block b = [kind, ok, why, l] on stream s; a malformed block (or one that follows a
-\* malformed one) must never be delivered, and obliges E to fail the stream
-AddBlock(m, s, kind, why, l, ph2, cla2) ==
-    LET x   == S(m, s)
-        ok  == why = {} /\ x.ph # "bad"
-        b   == [kind |-> kind, ok |-> ok, why |-> IF why = {} /\ ~ok THEN {"after_malformed"} ELSE why, l |-> l]
-        x1  == [x EXCEPT !.blocks = Append(@, b)]
-    IN IF ok
-       THEN SetS(Note(m, "valid_" \o kind), s, [x1 EXCEPT !.ph = ph2, !.cla = cla2])
-       ELSE LET m1 == Hit(Note(m, "malformed_" \o kind), "C13.no_deliver_malformed")
-                own == why # {} /\ x.ph # "bad"      \* this block is the first defect of the stream
-            IN IF own /\ Live(m, x)
-               THEN SetS(Hit(m1, "C13.fail_malformed"), s,
-                         [x1 EXCEPT !.ph = "bad", !.owe = l, !.oweRule = "C13.fail_malformed"])
-               ELSE SetS(m1, s, [x1 EXCEPT !.ph = "bad"])
+\* register the block on stream s.  why0: all its defects; ph2 / cla2: receive state after a valid block
+AddBlock(m, s, kind, why0, es, alt, l, ph2, cla2) ==
+    LET x    == S(m, s)
+        why  == why0 \ Framing
+        own  == why # {} /\ ~x.bad                 \* this block is the first defect of the stream
+        ok   == why = {} /\ ~x.bad
+        b    == [kind |-> kind, ok |-> ok, l |-> l, live |-> Live(m, s, x),
+                 why |-> IF why = {} /\ x.bad THEN {"after_malformed"} ELSE why0]
+        x1   == [x EXCEPT !.blocks = Append(@, b), !.ph = ph2, !.bad = ~ok]
+        m0   == IF why0 \cap Framing # {} THEN Note(m, "framing_defect_received") ELSE m
+    IN IF ok THEN SetS(Note(m0, "valid_" \o kind), s, [x1 EXCEPT !.cla = cla2])
+       ELSE LET m1 == Hit(Note(m0, "malformed_" \o kind), "C13.no_deliver_malformed") IN
+            IF own /\ Live(m, IF alt # 0 THEN alt ELSE s, x)
+            THEN SetS(Hit(m1, "C13.fail_malformed"), s,
+                      [x1 EXCEPT !.owe = l, !.oweRule = "C13.fail_malformed", !.oweEs = es, !.oweAlt = alt])
+            ELSE SetS(m1, s, x1)
 
 \* the body of the message received on s turned out to disagree with its content-length
-ClBad(m, s, x, l) ==
+ClBad(m, s, x, es, l) ==
     LET m1 == Hit(Note(m, "cl_mismatch"), "C13.cl_no_clean_end") IN
-    IF Live(m, x)
-    THEN SetS(Hit(m1, "C13.cl_fail"), s, [x EXCEPT !.ph = "bad", !.owe = l, !.oweRule = "C13.cl_fail"])
-    ELSE SetS(m1, s, [x EXCEPT !.ph = "bad"])
+    IF Live(m, s, x)
+    THEN SetS(Hit(m1, "C13.cl_fail"), s, [x EXCEPT !.bad = TRUE, !.owe = l, !.oweRule = "C13.cl_fail", !.oweEs = es])
+    ELSE SetS(m1, s, [x EXCEPT !.bad = TRUE])
 
 InHeaders(m, f, l) ==
     LET s   == f.sid
@@ -226,54 +252,55 @@ InHeaders(m, f, l) ==
         h   == f.hdr.cls
         cl  == f.hdr.cl
         es  == f.bes
-    IN IF ~f.hdr.ok THEN SetS(Note(m, "undecodable_block"), s, [x EXCEPT !.ph = "bad"])   \* HPACK level: C10/C11
+        after == IF es THEN "done" ELSE "body"
+    IN IF ~f.hdr.ok THEN SetS(Note(m, "undecodable_block"), s, [x EXCEPT !.bad = TRUE])   \* HPACK level: C10 / C11
        ELSE IF x.ph = "head" /\ m.role = "s"
-       THEN LET why  == RequestDefects(h, m.ecpLocal, cl)
-                a0   == ClInit(cl)
-                a1   == IF es THEN ClEnd(a0) ELSE a0
-                m1   == AddBlock(m, s, "request", why, l, IF es THEN "done" ELSE "body", a1)
-                x1   == S(m1, s)
-            IN IF why = {} /\ a1.st = "bad" THEN ClBad(m1, s, [x1 EXCEPT !.reqm = FirstIn(h, MethodCls)], l)
-               ELSE SetS(m1, s, [x1 EXCEPT !.reqm = FirstIn(h, MethodCls)])
+       THEN LET why == RequestDefects(h, m.ecpLocal, cl)
+                a0  == ClInit(cl)
+                a1  == IF es THEN ClEnd(a0) ELSE a0
+                m1  == AddBlock(m, s, "request", why, es, 0, l, after, a1)
+                x1  == [S(m1, s) EXCEPT !.reqm = FirstIn(h, MethodCls)]
+            IN IF ~x1.bad /\ a1.st = "bad" THEN ClBad(m1, s, x1, es, l) ELSE SetS(m1, s, x1)
        ELSE IF x.ph = "head" /\ HeadKind(h) = "interim"
-       THEN AddBlock(m, s, "interim", InterimDefects(h, es), l, "head", x.cla)
+       THEN AddBlock(m, s, "interim", InterimDefects(h, es), es, 0, l, IF es THEN "done" ELSE "head", x.cla)
        ELSE IF x.ph = "head"
-       THEN LET ex   == Exempt(x.reqm, h)
-                why  == ResponseDefects(h, cl, ex)
-                a0   == ClInit(IF ex THEN -1 ELSE cl)
-                a1   == IF es THEN ClEnd(a0) ELSE a0
-                m1   == AddBlock(IF ex THEN Note(m, "exempt_response") ELSE m, s, "response", why, l,
-                                 IF es THEN "done" ELSE "body", a1)
-            IN IF why = {} /\ a1.st = "bad" THEN ClBad(m1, s, S(m1, s), l) ELSE m1
+       THEN LET ex  == Exempt(x.reqm, h)
+                why == ResponseDefects(h, cl, ex)
+                a0  == ClInit(IF ex THEN -1 ELSE cl)
+                a1  == IF es THEN ClEnd(a0) ELSE a0
+                m1  == AddBlock(IF ex THEN Note(m, "exempt_response") ELSE m, s, "response", why, es, 0, l, after, a1)
+                x1  == S(m1, s)
+            IN IF ~x1.bad /\ a1.st = "bad" THEN ClBad(m1, s, x1, es, l) ELSE m1
        ELSE IF x.ph = "body"
        THEN LET why == TrailerDefects(h, es)
-                a1  == ClEnd(x.cla)
-                m1  == AddBlock(m, s, "trailers", why, l, "done", a1)
-            IN IF why = {} /\ a1.st = "bad" /\ x.cla.st = "open" THEN ClBad(m1, s, S(m1, s), l) ELSE m1
-       ELSE IF x.ph = "bad"
-       THEN AddBlock(m, s, "trailers", {}, l, "bad", x.cla)     \* anything after a malformed block
+                a1  == IF x.bad THEN x.cla ELSE ClEnd(x.cla)
+                m1  == AddBlock(m, s, "trailers", why, es, 0, l, "done", a1)
+                x1  == S(m1, s)
+            IN IF ~x1.bad /\ a1.st = "bad" THEN ClBad(m1, s, x1, es, l) ELSE m1
        ELSE Note(m, "block_after_end")                             \* HEADERS on a finished stream: C04 / C09
 
+\* (the harness logs the promised id on the PUSH_PROMISE frame only; the block may end in a CONTINUATION)
 InPush(m, f, l) ==
-    LET p == f.prom
+    LET p == IF f.ty = "PUSH_PROMISE" THEN f.prom ELSE m.promIn
         x == S(m, p)
         h == f.hdr.cls
     IN IF m.role # "c" \/ ~f.hdr.ok \/ x.blocks # <<>> THEN Note(m, "push_ignored")
        ELSE LET why == PushDefects(h, f.hdr.cl)
-                m1  == AddBlock(m, p, "push", why, l, "head", x.cla)
+                m1  == AddBlock(m, p, "push", why, FALSE, f.sid, l, "head", x.cla)
             IN SetS(m1, p, [S(m1, p) EXCEPT !.reqm = FirstIn(h, MethodCls)])
 
 InData(m, f, l) ==
     LET s == f.sid
         x == S(m, s)
-    IN IF x.ph # "body" \/ f.bad # "" THEN m
+    IN IF x.ph # "body" \/ x.bad \/ f.bad # "" THEN m
        ELSE LET a1 == ClData(x.cla, f.dlen, f.es)
                 x1 == [x EXCEPT !.cla = a1, !.ph = IF f.es THEN "done" ELSE "body"]
-            IN IF a1.st = "bad" THEN ClBad(m, s, x1, l) ELSE SetS(m, s, x1)
+            IN IF a1.st = "bad" THEN ClBad(m, s, x1, f.es, l) ELSE SetS(m, s, x1)
 
 StepIn(m, f, l) ==
     IF f.hb /\ f.bt = "HEADERS" THEN InHeaders(m, f, l)
     ELSE IF f.hb /\ f.bt = "PUSH_PROMISE" THEN InPush(m, f, l)
+    ELSE IF f.ty = "PUSH_PROMISE" THEN [m EXCEPT !.promIn = f.prom]
     ELSE IF f.ty = "DATA" THEN InData(m, f, l)
     ELSE IF f.ty = "RST_STREAM"
     THEN SetS(m, f.sid, [S(m, f.sid) EXCEPT !.failed = TRUE, !.owe = 0])    \* the peer gave the stream up itself
@@ -287,40 +314,50 @@ OutBlock(m, f, l) ==
         cl == f.hdr.cl
         es == f.bes
         isPP == f.bt = "PUSH_PROMISE"
-        s  == IF isPP THEN f.prom ELSE f.sid
+        s  == IF ~isPP THEN f.sid ELSE IF f.ty = "PUSH_PROMISE" THEN f.prom ELSE m.promOut
         x  == S(m, s)
         kind == IF isPP THEN "push"
                 ELSE IF x.oph = "head" THEN (IF m.role = "c" THEN "request" ELSE HeadKind(h))
                 ELSE "trailers"
         ex   == kind = "response" /\ Exempt(x.reqm, h)
-        why  == Defects(kind, h, [ecp |-> m.ecpPeer, cl |-> cl, exempt |-> ex, es |-> es])
-        m1   == Check(m, "C13.emit_wellformed", why = {}, l, s, [kind |-> kind, why |-> SetToSeq(why), cls |-> h])
+        why0 == Defects(kind, h, [ecp |-> m.ecpPeer, cl |-> cl, exempt |-> ex, es |-> es])
+        why  == why0 \ Framing
+        m0   == IF why0 \cap Framing # {} THEN Note(m, "framing_defect_emitted") ELSE m
+        m1   == Check(m0, "C13.emit_wellformed", why = {}, l, s, [kind |-> kind, why |-> SetToSeq(why), cls |-> h])
         a0   == IF kind \in {"request", "response"} THEN ClInit(IF ex THEN -1 ELSE cl) ELSE x.ocla
         a1   == IF es /\ kind # "interim" THEN ClEnd(a0) ELSE a0
-        oph2 == IF isPP \/ kind = "interim" THEN "head" ELSE IF es THEN "done" ELSE "body"
-        x1   == [x EXCEPT !.oph = oph2, !.ocla = a1,
+        oph2 == IF isPP THEN "head" ELSE IF es THEN "done" ELSE IF kind = "interim" THEN "head" ELSE "body"
+        x1   == [x EXCEPT !.oph = oph2, !.ocla = a1, !.oint = IF kind = "interim" THEN @ + 1 ELSE @,
                           !.reqm = IF kind \in {"request", "push"} THEN FirstIn(h, MethodCls) ELSE @]
         m2   == SetS(m1, s, x1)
-    IN IF ~f.hdr.ok \/ x.oph = "done" THEN Note(m, "out_block_skipped")       \* C04 / C10 territory
+    IN IF ~f.hdr.ok THEN SetS(Note(m, "out_block_skipped"), s, [x EXCEPT !.oph = "skip"])   \* C10 territory
+       ELSE IF x.oph \in {"done", "skip"} THEN Note(m, "out_block_skipped")                  \* C04 territory
        ELSE IF isPP \/ kind = "interim" \/ a1.st = "open" \/ a0.cl < 0 THEN m2
        ELSE Check(m2, "C13.emit_cl_match", a1.st = "ok", l, s, [cl |-> a0.cl, got |-> a1.got])
 
 OutData(m, f, l) ==
     LET s == f.sid
         x == S(m, s)
-    IN IF x.oph # "body" THEN m
+    IN IF x.oph = "head" /\ x.oint > 0      \* 8.1: content before the final response (framing)
+       THEN SetS(Note(m, "framing_defect_emitted"), s, [x EXCEPT !.oph = "skip"])
+       ELSE IF x.oph # "body" THEN m
        ELSE LET a1 == ClData(x.ocla, f.dlen, f.es)
                 m1 == SetS(m, s, [x EXCEPT !.ocla = a1, !.oph = IF f.es THEN "done" ELSE "body"])
-            IN IF x.ocla.cl < 0 \/ a1.st = "open" THEN m1
+            IN IF x.ocla.cl < 0 \/ a1.st = "open" \/ x.ocla.st # "open" THEN m1
                ELSE Check(m1, "C13.emit_cl_match", a1.st = "ok", l, s, [cl |-> x.ocla.cl, got |-> a1.got])
 
 StepOut(m, f, l) ==
     IF f.hb THEN OutBlock(m, f, l)
+    ELSE IF f.ty = "PUSH_PROMISE" THEN [m EXCEPT !.promOut = f.prom]
     ELSE IF f.ty = "DATA" THEN OutData(m, f, l)
     ELSE IF f.ty = "RST_STREAM"
-    THEN LET x == S(m, f.sid) IN SetS(m, f.sid, [x EXCEPT !.failed = TRUE, !.owe = 0, !.oph = "done"])
+    THEN LET x  == S(m, f.sid)
+             m1 == [m EXCEPT !.st = [t \in DOMAIN m.st |-> IF m.st[t].owe # 0 /\ m.st[t].oweAlt = f.sid
+                                                           THEN [m.st[t] EXCEPT !.owe = 0] ELSE m.st[t]]]
+         IN SetS(m1, f.sid, [x EXCEPT !.failed = TRUE, !.owe = 0, !.oph = "done"])
     ELSE IF f.ty = "GOAWAY" /\ (f.ch # 0 \/ f.cl # 0)
     THEN [m EXCEPT !.connFailed = TRUE, !.st = [s \in DOMAIN m.st |-> [m.st[s] EXCEPT !.owe = 0]]]
+    ELSE IF f.ty = "GOAWAY" THEN [m EXCEPT !.goLast = f.last]
     ELSE IF f.ty = "SETTINGS" /\ ~f.ack /\ "set" \in DOMAIN f
     THEN (IF f.set.ecp = 1 THEN [m EXCEPT !.ecpLocal = TRUE] ELSE m)
     ELSE m
@@ -332,20 +369,34 @@ Deliver(m, s, kind, l) ==
         n    == x.dl[kind] + 1
         x1   == [x EXCEPT !.dl[kind] = n]
         m1   == SetS(m, s, x1)
-    IN IF Cardinality(idxs) < n THEN Note(m1, "deliver_unmatched")     \* nothing of that kind was handed to E: C01
+        bads == {i \in 1..Len(x.blocks) : ~x.blocks[i].ok /\ x.blocks[i].why # {"after_malformed"}}
+    IN IF Cardinality(idxs) < n
+       THEN IF bads = {} THEN Note(m1, "deliver_unmatched")     \* nothing of that kind was handed to E: C01
+            ELSE \* E read the malformed block of this stream as something else and handed that over
+                 LET b == x.blocks[CHOOSE i \in bads : TRUE]
+                 IN Viol(m1, "C13.no_deliver_malformed", l, s,
+                         [kind |-> b.kind, why |-> SetToSeq(b.why \ Framing), at |-> b.l, as |-> kind])
        ELSE LET i == CHOOSE i \in idxs : Cardinality({j \in idxs : j <= i}) = n
                 b == x.blocks[i]
             IN IF b.ok THEN Note(m1, "delivered_" \o kind)
-               ELSE Viol(m1, "C13.no_deliver_malformed", l, s, [kind |-> kind, why |-> SetToSeq(b.why), at |-> b.l])
+               ELSE IF b.why = {"after_malformed"} THEN Note(m1, "delivered_after_malformed")   \* the cause is reported
+               ELSE Viol(m1, "C13.no_deliver_malformed", l, s, [kind |-> kind, why |-> SetToSeq(b.why \ Framing), at |-> b.l])
 
 CleanEnd(m, s, call, l) ==
     LET x == S(m, s) IN
     IF x.cla.st = "bad"
     THEN Viol(m, "C13.cl_no_clean_end", l, s, [call |-> call, cl |-> x.cla.cl, got |-> x.cla.got])
-    ELSE IF x.cla.cl >= 0 THEN Note(m, "clean_end_with_cl") ELSE m
+    ELSE IF x.cla.cl >= 0 /\ x.cla.st = "ok" THEN Note(m, "clean_end_with_cl") ELSE m
+
+\* an error returned to the application fails the stream when the cause carried END_STREAM and nobody is left
+\* to tell: E is the client (it needs no answer), or E had already ended its own side (the stream is closed)
+ApiErr(m, s) ==
+    LET x == S(m, s) IN
+    IF x.owe # 0 /\ x.oweEs /\ (m.role = "c" \/ x.oph = "done") THEN SetS(m, s, [x EXCEPT !.owe = 0]) ELSE m
 
 StepApi(m, e, l) ==
-    IF e.call = "accept" /\ e.res = "some" THEN Deliver(m, e.sid, "request", l)
+    IF e.res = "err" /\ e.call \in {"poll_response", "poll_info", "poll_data", "poll_trailers"} THEN ApiErr(m, e.sid)
+    ELSE IF e.call = "accept" /\ e.res = "some" THEN Deliver(m, e.sid, "request", l)
     ELSE IF e.call = "poll_response" /\ e.res = "ok" THEN Deliver(m, e.sid, "response", l)
     ELSE IF e.call = "poll_info" /\ e.res = "some" THEN Deliver(m, e.sid, "interim", l)
     ELSE IF e.call = "poll_push" /\ e.res = "some" THEN Deliver(m, e.psid, "push", l)
